@@ -220,6 +220,15 @@ def add_spatial_basic(u, sh):
     u.take(P, gh, 'distance', C(ensures=['res.v@ == sqrt_r(%s)' % d2]))
     mag = 'sqrt_r(%s)' % dot_expr(sh, 'self', 'self')
     u.take(P, gh, 'normalized', C(ensures=['res.%s.v@ == self.%s.v@ / %s' % (f, f, mag) for f in sh.fields]))
+    # the sibling normalisation forms (commonly called instead of normalized + magnitude: keeps units deciding)
+    from expr import app as _app
+    f = sh.fields
+    mags = X.verus(_app('sqrt_r', n2))
+    u.take(P, gh, 'normalized_and_get_magnitude', C(ensures=['res.0.%s.v@ == self.%s.v@ / %s' % (x, x, mags) for x in f] + ['res.1.v@ == ' + mags]))
+    ao = SV.of(sh, 'old(self)')
+    mo = X.verus(_app('sqrt_r', ao.norm2()))
+    u.take(P, gh, 'normalize', C(ret=None, ensures=['final(self).%s.v@ == old(self).%s.v@ / %s' % (x, x, mo) for x in f]))
+    u.take(P, gh, 'normalize_and_get_magnitude', C(ensures=['final(self).%s.v@ == old(self).%s.v@ / %s' % (x, x, mo) for x in f] + ['res.v@ == ' + mo]))
     if N == 'Vec3':
         bb = SV.of(sh, 'b')
         u.take(P, gh, 'cross', C(ensures=veq(sh, 'res', a.cross(bb))))
@@ -247,11 +256,6 @@ def add_spatial_full(u, sh):
     mag = app('sqrt_r', n2)
     n2s, mags = X.verus(n2), X.verus(mag)
     f = sh.fields
-    u.take(P, gh, 'normalized_and_get_magnitude', C(ensures=['res.0.%s.v@ == self.%s.v@ / %s' % (x, x, mags) for x in f] + ['res.1.v@ == ' + mags]))
-    ao = SV.of(sh, 'old(self)')
-    mo = X.verus(app('sqrt_r', ao.norm2()))
-    u.take(P, gh, 'normalize', C(ret=None, ensures=['final(self).%s.v@ == old(self).%s.v@ / %s' % (x, x, mo) for x in f]))
-    u.take(P, gh, 'normalize_and_get_magnitude', C(ensures=['final(self).%s.v@ == old(self).%s.v@ / %s' % (x, x, mo) for x in f] + ['res.v@ == ' + mo]))
     E2 = ('T', 'E')
     close = lambda xx: 'rel_eq_r(%s, %s, eps_r() + eps_r() + eps_r() + eps_r(), eps_r() + eps_r() + eps_r() + eps_r())' % (n2s, xx)
     u.take(P, gh, 'is_magnitude_close_to', C(ensures=['res == ' + close('x.v@ * x.v@')]), tparams=E2)
